@@ -135,6 +135,10 @@ pub fn export_cmd(dir: &str) -> i32 {
                     std::fs::write(format!("{}.key.der", stem), kp.serialize_der()).unwrap();
                     std::fs::write(format!("{}.key.pem", stem), kp.serialize_pem()).unwrap();
                     std::fs::write(format!("{}.pub.der", stem), kp.public_key_der()).unwrap();
+                    // and what the key signs in this back end: the other back end must accept it
+                    if let Ok(csr) = rcgen::CertificateParams::default().serialize_request(&kp) {
+                        std::fs::write(format!("{}.csr.der", stem), csr.der()).unwrap();
+                    }
                 }
             }
         }
@@ -355,6 +359,16 @@ pub fn import_cmd(dir: &str, out: &str) -> i32 {
             let spki = ossl.public_key_to_der().map_err(|e| e.to_string())?;
             if k1.public_key_der() != spki || k2.public_key_der() != spki || pubder != spki {
                 return Err("public key differs from the exporter's / OpenSSL's".into());
+            }
+            // a request signed by the exporting back end with this key: accepted here, and independently valid
+            if let Ok(foreign) = std::fs::read(format!("{}/{}.csr.der", dir, stem)) {
+                let abs = refmodel::x509::decode_csr(&foreign).value.ok_or("undecodable CSR from the exporter")?;
+                let mut f = Vec::new();
+                super::c01::verify_all(alg, &KeyPub { alg, raw: k2.der_bytes().to_vec() }, &abs.cri_raw, &abs.sig, "csr signed by the exporter", &mut f);
+                if let Some(x) = f.first() {
+                    return Err(format!("{}", x));
+                }
+                rcgen::CertificateSigningRequestParams::from_der(&foreign.clone().into()).map_err(|e| format!("this back end refuses a request signed by the exporter: {:?}", e))?;
             }
             let csr = rcgen::CertificateParams::default().serialize_request(&k2).map_err(|e| format!("{:?}", e))?;
             let abs = refmodel::x509::decode_csr(csr.der()).value.ok_or("undecodable CSR")?;
